@@ -162,9 +162,133 @@ def enum_values(fn, names):
     return out
 
 
-def run_rule(db, chk, uname, rid_paths, rid_levels):
+_CTX = None
+
+
+def _work(task):
+    """all scenarios of one (graph, base-level set): list of (label, path findings, level findings)"""
+    c = _CTX
+    uname, thorough, levels, gfn, ap, bgrec, bgfn, route, meth = (c[k] for k in (
+        "uname", "thorough", "levels", "gfn", "ap", "bgrec", "bgfn", "route", "meth"))
+    gname, adj, base = task
+    n = len(adj)
+    out = []
+    if True:
+        bset = set(base)
+        for elev in itertools.product(levels, repeat=n):
+            rec0 = steepest(adj, elev, bset)
+            if all(rec0[i] != i or i in bset for i in range(n)):
+                continue                      # no pit: nothing for the resolver to do
+            for mname, rname in (("kruskal", "basic"), ("boruvka", "carve"), ("kruskal", "carve"), ("boruvka", "basic")):
+                if not thorough and (mname, rname) in (("kruskal", "carve"), ("boruvka", "basic")) and n > 3:
+                    continue
+                R, D, C, W_ = Table("m_receivers"), Table("m_receivers_distance"), Table("m_receivers_count"), \
+                    Table("m_receivers_weight")
+                for i in range(n):
+                    R[(i, 0)] = rec0[i]
+                    D[(i, 0)] = 0.0 if rec0[i] == i else 1.0
+                    C[(i,)] = 1
+                    W_[(i, 0)] = 1.0
+                gobj = Obj(model.GRAPH_IMPL, {
+                    "m_single_flow": True, "m_grid": Sym("grid", "grid"),
+                    "m_receivers": R, "m_receivers_distance": D, "m_receivers_count": C, "m_receivers_weight": W_,
+                    "m_donors": Table("m_donors"), "m_donors_count": Table("m_donors_count"),
+                    "m_dfs_indices": PyVec([-1] * n), "m_bfs_indices": PyVec([-1] * n),
+                    "m_bfs_levels": PyVec([-1] * (n + 1)), "m_basins": PyVec([-1] * n),
+                    "m_outlets": PyVec(), "m_pits": PyVec(), "m_base_levels": frozenset(bset),
+                    "m_mask_initialized": False})
+                ev = Elev(list(elev))
+                w = PipeWorld(adj, bset, gobj, (bgrec[0], bgfn[0]))
+                it = Interp(w, max_steps=2000000)
+                this = Obj(ap.cls, {"m_basin_graph_ptr": None,
+                                    "m_op_ptr": Obj(MST, {"m_route_method": route[rname], "m_basin_method": meth[mname]})})
+                bad_p, bad_l = [], []
+                try:
+                    it.call_fn(gfn["compute_donors"], gobj, [])
+                    it.call_fn(gfn["compute_dfs_indices_bottomup"], gobj, [])
+                    it.call_fn(ap, this, [gobj, ev, Sym("pool", "pool")])
+                except ThrowEx as ex:
+                    bad_p.append("threw %s" % ex.text[:70])
+                except OutOfRange as ex:
+                    bad_p.append("out-of-bounds access: %s" % str(ex)[8:110])
+                if not bad_p:
+                    fin = list(ev)
+                    # C01: paths
+                    for i in range(n):
+                        cur, steps = i, 0
+                        while True:
+                            nxt = R.get((cur, 0))
+                            if not isinstance(nxt, int) or not (0 <= nxt < n):
+                                bad_p.append("receiver of node %d is %r" % (cur, nxt))
+                                break
+                            if nxt == cur:
+                                if cur not in bset:
+                                    bad_p.append("the flow path of node %d ends at node %d, which is no base level" % (i, cur))
+                                break
+                            if cur in bset:
+                                bad_p.append("base level %d drains to %d" % (cur, nxt))
+                                break
+                            if not fin[nxt] < fin[cur]:
+                                bad_p.append("elevation does not strictly decrease from node %d (%.17g) to its receiver "
+                                             "%d (%.17g)" % (cur, fin[cur], nxt, fin[nxt]))
+                                break
+                            cur = nxt
+                            steps += 1
+                            if steps > n:
+                                bad_p.append("the flow path of node %d contains a cycle" % i)
+                                break
+                        if bad_p:
+                            break
+                    # C02: levels
+                    M = {b: elev[b] for b in bset}
+                    changed = True
+                    while changed:
+                        changed = False
+                        for u in list(M):
+                            for v in adj[u]:
+                                if v in bset:
+                                    continue
+                                cand = max(M[u], elev[v])
+                                if v not in M or cand < M[v]:
+                                    M[v] = cand
+                                    changed = True
+                    for v in range(n):
+                        if v in bset:
+                            if fin[v] != elev[v]:
+                                bad_l.append("base level %d changed from %r to %r" % (v, elev[v], fin[v]))
+                            continue
+                        hi = M[v]
+                        for _ in range(n):
+                            hi = math.nextafter(hi, INF)
+                        if fin[v] < elev[v]:
+                            bad_l.append("node %d lowered" % v)
+                        elif not (M[v] <= fin[v] <= hi):
+                            bad_l.append("node %d ends at %.17g, its spill level is %.17g (margin: %d increments)"
+                                         % (v, fin[v], M[v], n))
+                label = "[%s] %s / %s on %s, base levels %s, elevation %s" % (uname, mname, rname, gname, base, list(elev))
+                out.append((label, bad_p, bad_l))
+    return out
+
+
+def _map_tasks(ctx, tasks, parallel):
+    """results per task, in task order; the thorough tier spreads the tasks over the cores (the
+    workers are forked, so they share the loaded program)"""
+    global _CTX
+    _CTX = ctx
+    if not parallel or len(tasks) < 2:
+        for t in tasks:
+            yield _work(t)
+        return
+    import multiprocessing, os
+    mp = multiprocessing.get_context("fork")
+    with mp.Pool(min(len(tasks), os.cpu_count() or 4)) as pool:
+        for r in pool.imap(_work, tasks):
+            yield r
+
+
+def run_rule(db, chk, uname, rid_paths, rid_levels, deep=True):
     """returns the number of scenarios; reports under the two rule ids"""
-    thorough = chk.tier == "thorough"
+    thorough = chk.tier == "thorough" and deep
     unit = db.units[uname]
     impls = model.operator_impls(db, uname)
     mf = {f.name: f for f in impls.get(MST, {}).get("fns", [])}
@@ -189,111 +313,23 @@ def run_rule(db, chk, uname, rid_paths, rid_levels):
         route = {"basic": route.get("basic", 0), "carve": route.get("carve", 1)}
         meth = {"kruskal": meth.get("kruskal", 0), "boruvka": meth.get("boruvka", 1)}
     levels = [0.0, 1.0, 2.0]
-    n_sc = 0
-    nbad = {rid_paths: 0, rid_levels: 0, None: 0}
+    ctx = dict(uname=uname, thorough=thorough, levels=levels, gfn=gfn, ap=ap, bgrec=bgrec, bgfn=bgfn, route=route, meth=meth)
+    tasks = []
     for gname, adj in graphs(thorough):
         n = len(adj)
-        base_sets = [[0], [n - 1], [0, n - 1]] + ([[1]] if n > 3 else [])
-        for base in base_sets:
-            bset = set(base)
-            for elev in itertools.product(levels, repeat=n):
-                rec0 = steepest(adj, elev, bset)
-                if all(rec0[i] != i or i in bset for i in range(n)):
-                    continue                      # no pit: nothing for the resolver to do
-                for mname, rname in (("kruskal", "basic"), ("boruvka", "carve"), ("kruskal", "carve"), ("boruvka", "basic")):
-                    if not thorough and (mname, rname) in (("kruskal", "carve"), ("boruvka", "basic")) and n > 3:
-                        continue
-                    n_sc += 1
-                    R, D, C, W_ = Table("m_receivers"), Table("m_receivers_distance"), Table("m_receivers_count"), \
-                        Table("m_receivers_weight")
-                    for i in range(n):
-                        R[(i, 0)] = rec0[i]
-                        D[(i, 0)] = 0.0 if rec0[i] == i else 1.0
-                        C[(i,)] = 1
-                        W_[(i, 0)] = 1.0
-                    gobj = Obj(model.GRAPH_IMPL, {
-                        "m_single_flow": True, "m_grid": Sym("grid", "grid"),
-                        "m_receivers": R, "m_receivers_distance": D, "m_receivers_count": C, "m_receivers_weight": W_,
-                        "m_donors": Table("m_donors"), "m_donors_count": Table("m_donors_count"),
-                        "m_dfs_indices": PyVec([-1] * n), "m_bfs_indices": PyVec([-1] * n),
-                        "m_bfs_levels": PyVec([-1] * (n + 1)), "m_basins": PyVec([-1] * n),
-                        "m_outlets": PyVec(), "m_pits": PyVec(), "m_base_levels": frozenset(bset),
-                        "m_mask_initialized": False})
-                    ev = Elev(list(elev))
-                    w = PipeWorld(adj, bset, gobj, (bgrec[0], bgfn[0]))
-                    it = Interp(w, max_steps=2000000)
-                    this = Obj(ap.cls, {"m_basin_graph_ptr": None,
-                                        "m_op_ptr": Obj(MST, {"m_route_method": route[rname], "m_basin_method": meth[mname]})})
-                    bad_p, bad_l = [], []
-                    try:
-                        it.call_fn(gfn["compute_donors"], gobj, [])
-                        it.call_fn(gfn["compute_dfs_indices_bottomup"], gobj, [])
-                        it.call_fn(ap, this, [gobj, ev, Sym("pool", "pool")])
-                    except ThrowEx as ex:
-                        bad_p.append("threw %s" % ex.text[:70])
-                    except OutOfRange as ex:
-                        bad_p.append("out-of-bounds access: %s" % str(ex)[8:110])
-                    if not bad_p:
-                        fin = list(ev)
-                        # C01: paths
-                        for i in range(n):
-                            cur, steps = i, 0
-                            while True:
-                                nxt = R.get((cur, 0))
-                                if not isinstance(nxt, int) or not (0 <= nxt < n):
-                                    bad_p.append("receiver of node %d is %r" % (cur, nxt))
-                                    break
-                                if nxt == cur:
-                                    if cur not in bset:
-                                        bad_p.append("the flow path of node %d ends at node %d, which is no base level" % (i, cur))
-                                    break
-                                if cur in bset:
-                                    bad_p.append("base level %d drains to %d" % (cur, nxt))
-                                    break
-                                if not fin[nxt] < fin[cur]:
-                                    bad_p.append("elevation does not strictly decrease from node %d (%.17g) to its receiver "
-                                                 "%d (%.17g)" % (cur, fin[cur], nxt, fin[nxt]))
-                                    break
-                                cur = nxt
-                                steps += 1
-                                if steps > n:
-                                    bad_p.append("the flow path of node %d contains a cycle" % i)
-                                    break
-                            if bad_p:
-                                break
-                        # C02: levels
-                        M = {b: elev[b] for b in bset}
-                        changed = True
-                        while changed:
-                            changed = False
-                            for u in list(M):
-                                for v in adj[u]:
-                                    if v in bset:
-                                        continue
-                                    cand = max(M[u], elev[v])
-                                    if v not in M or cand < M[v]:
-                                        M[v] = cand
-                                        changed = True
-                        for v in range(n):
-                            if v in bset:
-                                if fin[v] != elev[v]:
-                                    bad_l.append("base level %d changed from %r to %r" % (v, elev[v], fin[v]))
-                                continue
-                            hi = M[v]
-                            for _ in range(n):
-                                hi = math.nextafter(hi, INF)
-                            if fin[v] < elev[v]:
-                                bad_l.append("node %d lowered" % v)
-                            elif not (M[v] <= fin[v] <= hi):
-                                bad_l.append("node %d ends at %.17g, its spill level is %.17g (margin: %d increments)"
-                                             % (v, fin[v], M[v], n))
-                    label = "[%s] %s / %s on %s, base levels %s, elevation %s" % (uname, mname, rname, gname, base, list(elev))
-                    for rid, b in ((rid_paths, bad_p), (rid_levels, bad_l if not bad_p else ["(not evaluated: " + bad_p[0][:80] + ")"])):
-                        if rid is None:
-                            continue
-                        if b:
-                            nbad[rid] += 1
-                        if not b or nbad[rid] <= 6:
-                            chk.ob(rid, label, not b, where=ap.ploc, function=ap.bn, construct="mst-pipeline",
-                                   detail="; ".join(b[:2]), sample=(n_sc % 97 == 1), extra={"unit": uname})
+        for base in [[0], [n - 1], [0, n - 1]] + ([[1]] if n > 3 else []):
+            tasks.append((gname, adj, base))
+    n_sc = 0
+    nbad = {rid_paths: 0, rid_levels: 0, None: 0}
+    for results in _map_tasks(ctx, tasks, parallel=thorough):
+        for (label, bad_p, bad_l) in results:
+            n_sc += 1
+            for rid, b in ((rid_paths, bad_p), (rid_levels, bad_l if not bad_p else ["(not evaluated: " + bad_p[0][:80] + ")"])):
+                if rid is None:
+                    continue
+                if b:
+                    nbad[rid] += 1
+                if not b or nbad[rid] <= 6:
+                    chk.ob(rid, label, not b, where=ap.ploc, function=ap.bn, construct="mst-pipeline",
+                           detail="; ".join(b[:2]), sample=(n_sc % 97 == 1), extra={"unit": uname})
     return n_sc
